@@ -184,8 +184,22 @@ func init() {
 			}
 			return &SymStr{b}
 		},
-		"strings.Split":               stringsSplit,
-		"reflect.TypeOf":              func(e *Exec, fr *frame, a []Value) Value { return iface{} },
+		// math/bits.Len*: the library body indexes a 256-entry table with the (symbolic) value, which would fork
+		// 256 ways; the model is the exact function as an ite chain over the width.
+		"math/bits.Len64": func(e *Exec, fr *frame, a []Value) Value { return bitsLen(e, a[0].(*Term), 64) },
+		"math/bits.Len32": func(e *Exec, fr *frame, a []Value) Value { return bitsLen(e, a[0].(*Term), 32) },
+		"math/bits.Len":   func(e *Exec, fr *frame, a []Value) Value { return bitsLen(e, a[0].(*Term), 64) },
+		"strings.Split":   stringsSplit,
+		// reflect.TypeOf(nil) is the nil Type (a method call on it panics, as natively); for any other value an
+		// opaque non-nil Type whose methods return an opaque string (types are only ever printed by the repository)
+		"reflect.TypeOf": func(e *Exec, fr *frame, a []Value) Value {
+			if i, ok := a[0].(iface); ok && i.t == nil {
+				return iface{}
+			}
+			p := new(Value)
+			*p = &opaque{kind: "reflect.Type", desc: "type"}
+			return iface{t: opaqueErrT, v: p}
+		},
 		"runtime/debug.Stack":         func(e *Exec, fr *frame, a []Value) Value { return []Value(nil) },
 		"runtime.Gosched":             func(e *Exec, fr *frame, a []Value) Value { e.schedPoint(fr); return nil },
 		modPath + "/actor.cleanTrace": func(e *Exec, fr *frame, a []Value) Value { return a[0] },
@@ -335,6 +349,25 @@ func (e *Exec) nondetsOnce(key string, t *Term) {
 		}
 	}
 	e.nondets = append(e.nondets, nondetRec{key, t})
+}
+
+// bitsLen returns the minimum number of bits needed to represent x (0 for x == 0) as a 64-bit int term.
+func bitsLen(e *Exec, x *Term, w int) Value {
+	st := e.st
+	if x.IsConst() {
+		n := 0
+		for v := x.val; v != 0; v >>= 1 {
+			n++
+		}
+		return st.Const(64, uint64(n))
+	}
+	res := st.Const(64, 0)
+	for k := 1; k <= w; k++ {
+		// x >= 2^(k-1)  =>  at least k bits
+		ge := st.Not(st.App(OpULt, 0, x, st.Const(x.w, uint64(1)<<uint(k-1))))
+		res = st.Ite(ge, st.Const(64, uint64(k)), res)
+	}
+	return res
 }
 
 func hbKey(v Value) interface{} {
